@@ -329,6 +329,9 @@ def run(ctx: Ctx, rep: Report, tier: str):
     section(rep, lambda: selection_loop_has_no_early_stop(ctx, rep, "C17.A15"))
     rep.rule("C17.A16", "the ageing interval is derived from BOTH providers' poll intervals: per-side pairs take element i from side i", 1)
     section(rep, lambda: per_side_tuples_are_indexed_in_order(ctx, rep, "C17.A16"))
+    from rules.common import sort_key_takes_latest_stamp
+    rep.rule("C17.A17", "oldest eligible first: SyncState.change orders entries by (priority, the later of the two sides' change stamps)", 1)
+    section(rep, lambda: sort_key_takes_latest_stamp(ctx, rep, "C17.A17"))
     from rules.decisions import decision_table, table_sites
     rep.rule("C17.DT", "decision table (rules/decisions.json) of ageing, punting, marking changed and the selection of the next change: for every function and every action shape (an impure call with the parameters it passes, a store to an "
              "attribute or item, a delete, a returned constant, a yield, a raise) the set of states - over the function's guard atoms - in which the action is taken "
